@@ -54,9 +54,22 @@ func c13prop(r *simkit.Run) {
 	_, unfreeze := freeze(rt)
 	defer unfreeze()
 	start := clock.Now()
-	A := newTLim(rt, rates, nsrc+1)
-	B := newTLim(rt, rates, nsrc+1)
+	// by draw other traffic overlaps refusals: while the limiter is logging one source's refusal (decided, not yet
+	// answered) a bystander source of its own asks too, and is admitted or refused on its own account. What the
+	// first source is told must still be its own wait.
+	overlapLogger = rapid.IntRange(0, 2).Draw(rt, "refusals-overlap") == 0
+	defer func() { overlapLogger = false }()
+	A := newTLim(rt, rates, nsrc+2)
+	B := newTLim(rt, rates, nsrc+2)
 	mb := minBurst(rates)
+	nBystander := 0
+	if overlapLogger {
+		amts := rapid.SliceOfN(rapid.Int64Range(1, mb), 1, 6).Draw(rt, "bystander-amounts")
+		A.onWarn = func() {
+			A.do("bystander", amts[nBystander%len(amts)])
+			nBystander++
+		}
+	}
 
 	type srcState struct {
 		lastAccess time.Duration // instant of the last access in A (-1: never)
@@ -303,6 +316,7 @@ func c13prop(r *simkit.Run) {
 	}
 	r.ProbeN("refused-requests-dropped-from-twin", nRefusedDropped)
 	r.ProbeN("retry-after-advertised-delay", nRetry)
+	r.ProbeN("request-of-another-source-while-a-refusal-is-being-logged", nBystander)
 	r.ProbeN("idle-refill", nIdle)
 	r.ProbeN("paced-flood", nPaced)
 	r.ProbeN("plan-changed-between-requests", planChanges)
